@@ -7,6 +7,7 @@ Useful(l) == /\ (quiet >= Settle /\ Informed /\ ~announced /\ Up # {}) => l.a = 
              \* build a group of three, let it become stable, then one change at a time (mostly): random walks otherwise
              \* rarely stay quiet for Settle units
              /\ (l.a = "Start" => (Cardinality(Up) < 3 \/ quiet >= Settle \/ Len(hist) % 7 = 0))
+             /\ (l.a = "Restart" => (quiet >= Settle \/ Len(hist) % 5 = 0))
              /\ (l.a = "Die" => (Cardinality(Up) >= 3 /\ (quiet >= Settle \/ Len(hist) % 11 = 0)))
 SimNext == \E l \in Labels : Useful(l) /\ Step(l) /\ mon' = MonFold(mon, emitv') /\ marks' = marks
                              /\ hist' = Append(hist, [l |-> l, evs |-> emitv', post |-> Post'])
